@@ -10,3 +10,4 @@ pub mod astjson;
 pub mod obs;
 pub mod worker;
 pub mod dump;
+pub mod session;
